@@ -67,7 +67,7 @@ def gen_shape(N, nW, links=True):
         for i in range(N):
             if i not in state and not dfs(i):
                 assume(False, 'cyclic links')
-    return {'N': N, 'nW': nW, 'parent': parent, 'home': home, 'links': lk}
+    return {'N': N, 'nW': nW, 'parent': parent, 'home': home, 'links': lk, 'none_key': None}
 
 
 def tree_root(shape, i):
@@ -108,6 +108,9 @@ def build(shape, extra_attrs=None):
     U.tasks = [Task(U.ids[i], name=f't{i}') for i in range(N)]
     for i, t in enumerate(U.tasks):
         t.key = U.keys[i]
+    nk = shape.get('none_key')
+    if nk is not None:
+        U.tasks[nk].key = None  # a sort key that cannot be compared with the others
     par = shape['parent']
     if is_native():
         for i in range(N):
@@ -402,7 +405,10 @@ def seqs(name, N, maxlen):
 ALL_OPS = ['set_parent', 'set_children', 'ch_append', 'ch_insert', 'ch_remove', 'ch_move', 'ch_sort',
            'ch_reorder', 'ch_remove_all', 'set_preds', 'pred_append', 'pred_remove', 'set_succs', 'succ_append',
            'succ_remove', 'floordiv', 'lshift', 'rshift', 'list_lshift', 'list_rshift', 'wbs_remove',
-           'wbs_remove_all']
+           'wbs_remove_all', 'pred_remove_all', 'succ_remove_all']
+
+LINK_OPS = ['set_preds', 'pred_append', 'pred_remove', 'set_succs', 'succ_append', 'succ_remove', 'lshift', 'rshift',
+            'pred_remove_all', 'succ_remove_all']
 
 ATTACH_OPS = ['set_parent', 'set_children', 'ch_append', 'ch_insert', 'ch_remove', 'ch_move', 'ch_remove_all',
               'floordiv', 'wbs_remove', 'wbs_remove_all']
@@ -589,12 +595,13 @@ def pick_op(U, kinds, seqlen):
                     for b in range(a + 1, len(post)):
                         ka, kb = U.keys[post[a]], U.keys[post[b]]
                         if rev:
-                            conds.append(ka >= kb)
+                            # descending, and stable: equal keys keep their previous relative order
+                            conds.append(Or(ka > kb, And(ka == kb, pre.index(post[a]) < pre.index(post[b]))))
                         else:
                             conds.append(Or(ka < kb, And(ka == kb, pre.index(post[a]) < pre.index(post[b]))))
                 return And(*conds) if conds else True
 
-            return {tgt}, [('sorted by key (stable)' if not rev else 'sorted by key descending', order_ok)]
+            return {tgt}, [('sorted by key (stable)' if not rev else 'sorted by key descending (stable)', order_ok)]
 
         return Op(f'{tgt}.children.sort(key, reverse={rev})', run, spec)
 
@@ -691,6 +698,28 @@ def pick_op(U, kinds, seqlen):
 
         return Op(f't{t}.{"predecessors" if is_pred else "successors"}.{"append" if is_app else "remove"}(t{x})', run,
                   spec)
+
+    if kind in ('pred_remove_all', 'succ_remove_all'):
+        t = choose('t', N)
+        v = fresh_int('fv', KEY_LO - 1, KEY_HI + 1)
+        is_pred = kind.startswith('pred')
+        box = {}
+
+        def run():
+            lst = T[t].predecessors if is_pred else T[t].successors
+            box['ret'] = lst.remove_all(key_lt_=v)
+
+        def spec(S):
+            cur = list(S['pr'][t] if is_pred else S['su'][t])
+            gone = [m for m in cur if m != '?' and bool(U.keys[m] < v)]
+            for m in gone:
+                if is_pred:
+                    link_del(S, t, m)
+                else:
+                    link_del(S, m, t)
+            return set(), [('returns the removed tasks', lambda: [U.index.get(id(c)) for c in box['ret']] == gone)]
+
+        return Op(f't{t}.{"predecessors" if is_pred else "successors"}.remove_all(key_lt_=v)', run, spec)
 
     if kind == 'floordiv':
         tgt = pick_target(U)
@@ -824,9 +853,14 @@ def h_step(cfg):
     import zlib
     prop = cfg['prop']
     shape = gen_shape(cfg['N'], cfg['nW'], links=cfg.get('links', True))
+    if cfg.get('flat') and any(p != -1 for p in shape['parent']):
+        assume(False, 'flat forests only')
+    if cfg.get('none_key'):
+        k = choose('none_key', cfg['N'] + 1)
+        shape['none_key'] = None if k == cfg['N'] else k
     U = build(shape)
     op = pick_op(U, cfg['ops'], cfg['seqlen'])
-    desc = describe(shape) + ' :: ' + op.desc
+    desc = describe(shape) + (f' none_key=t{shape["none_key"]}' if shape.get('none_key') is not None else '') + ' :: ' + op.desc
     note('desc', desc)
     note('class', zlib.crc32(desc.encode()))
     pre = snapshot(U)
